@@ -3,8 +3,8 @@
   inspect   -> writes a CSV file, runs tally.commands.inspect.cmd_inspect on it, parses the printed
                "Auto-Detection Results" block and the suggested `format: "..."` line, and feeds that
                suggestion back into parse_format_string
-  templates -> the names str.format would look up (string.Formatter().parse) and the plain {name}
-               references (the regular expression the parser uses), for the template-scan models
+  each parse case also carries `ftab`: what CPython's string.Formatter().parse answers on the template and,
+               recursively, on every non-empty format spec in it (the library oracle the model is run with)
 stdin: JSON payload, stdout: JSON results."""
 import contextlib
 import csv
@@ -15,7 +15,6 @@ import re
 import string
 import sys
 from argparse import Namespace
-from _string import formatter_field_name_split
 
 from tally.format_parser import parse_format_string
 
@@ -39,21 +38,26 @@ def run_parse(fmt, tmpl):
             'neg': bool(s.negate_amount), 'abs': bool(s.abs_amount), 'tmpl': s.description_template}
 
 
-def template_names(t):
-    try:
-        out = []
-        for _lit, field, spec, _conv in string.Formatter().parse(t):
-            if field is None:
-                continue
-            if spec and ('{' in spec or '}' in spec):
-                return {'malformed': 'nested'}
-            first = formatter_field_name_split(field)[0]
-            if first == '':
-                continue
-            out.append(str(first))
-        return {'names': out}
-    except ValueError as e:
-        return {'malformed': str(e)[:80]}
+def fparse_table(t):
+    """{string: [[field_name, format_spec], ...] | None (ValueError)} for t and, recursively, its non-empty specs.
+    Library behaviour only (string.Formatter), no tally code."""
+    tab = {}
+
+    def go(x):
+        if x in tab:
+            return
+        try:
+            fields = [[f, spec or ''] for _lit, f, spec, _conv in string.Formatter().parse(x) if f is not None]
+        except ValueError:
+            tab[x] = None
+            return
+        tab[x] = fields
+        for _f, spec in fields:
+            if spec:
+                go(spec)
+    if t:
+        go(t)
+    return [[k, v] for k, v in tab.items()]
 
 
 def run_inspect(case, path):
@@ -105,14 +109,14 @@ def run_inspect(case, path):
 def main():
     payload = json.load(sys.stdin)
     out = {}
-    out['parse'] = [run_parse(c['fmt'], c.get('tmpl')) for c in payload.get('parse', [])]
+    out['parse'] = [dict(run_parse(c['fmt'], c.get('tmpl')), ftab=fparse_table(c.get('tmpl')))
+                    for c in payload.get('parse', [])]
     wd = payload.get('workdir') or '.'
     os.makedirs(wd, exist_ok=True)
     path = os.path.join(wd, f'inspect_{os.getpid()}.csv')
     out['inspect'] = [run_inspect(c, path) for c in payload.get('inspect', [])]
     if os.path.exists(path):
         os.remove(path)
-    out['templates'] = [dict(template_names(t), refs=re.findall(r'\{(\w+)\}', t)) for t in payload.get('templates', [])]
     json.dump(out, sys.stdout)
 
 
